@@ -506,20 +506,21 @@ where
             return Ok(Some(CFormatQuantity::FromValuesTuple));
         }
         if let Some(i) = c.to_digit(10) {
-            let mut num = i as i32;
+            // CPython keeps the width in a Py_ssize_t ("width too big" above isize::MAX)
+            let mut num = i as isize;
             iter.next().unwrap();
             while let Some(&(index, c)) = iter.peek() {
                 if let Some(i) = c.into().to_digit(10) {
                     num = num
                         .checked_mul(10)
-                        .and_then(|num| num.checked_add(i as i32))
+                        .and_then(|num| num.checked_add(i as isize))
                         .ok_or((CFormatErrorType::IntTooBig, index))?;
                     iter.next().unwrap();
                 } else {
                     break;
                 }
             }
-            return Ok(Some(CFormatQuantity::Amount(num.unsigned_abs() as usize)));
+            return Ok(Some(CFormatQuantity::Amount(num.unsigned_abs())));
         }
     }
     Ok(None)
@@ -532,8 +533,14 @@ where
 {
     if let Some(&(_, c)) = iter.peek() {
         if c.into() == '.' {
-            iter.next().unwrap();
+            let (dot_index, _) = iter.next().unwrap();
             let quantity = parse_quantity(iter)?;
+            // the precision is a C int in CPython ("precision too big")
+            if let Some(CFormatQuantity::Amount(amount)) = quantity {
+                if amount > i32::MAX as usize {
+                    return Err((CFormatErrorType::IntTooBig, dot_index));
+                }
+            }
             let precision = quantity.map_or(CFormatPrecision::Dot, CFormatPrecision::Quantity);
             return Ok(Some(precision));
         }
